@@ -1,6 +1,6 @@
 (* C12Theorems.v — the property theorems of C12 and nothing else. *)
 From V.lib Require Import Base.
-From V.c12 Require Import C12Model C12Spec C12Sidx C12PartProofs C12EncProofs C12SidxProofs.
+From V.c12 Require Import C12Model C12Spec C12Sidx C12PartProofs C12BoundProofs C12EncProofs C12SidxProofs.
 
 (* Every accepted top-level sequence, every flag combination: the children of the fragments of the
    segments, flattened in order, are exactly the emsg/moof/mdat boxes of the input in order (minus
@@ -20,6 +20,31 @@ Theorem C12_partition_fragmented : forall (o : opts) (bs : list topbox) (f : fil
   concat (map fr_children (concat (map sg_frags (f_segs f)))) = filter is_media bs.
 Proof. exact partition_fragmented_flat. Qed.
 Print Assumptions C12_partition_fragmented.
+
+(* Where segments start: the (StartPos, has styp) list of the assembled segments is the list computed
+   by the boundary rules of C12Spec over the input sequence: a segment starts at box i iff i is a
+   styp, or i is an emsg/moof and either no segment exists yet or the delimiter in force designates
+   its position (C12_boundary_rules: top-level sidx references / tfra entry / every moof / first only). *)
+Theorem C12_boundaries : forall (o : opts) (bs : list topbox) (f : file) (tf : option (list N)),
+  assemble o bs = Ok f ->
+  find_tfra (o_ism o) bs = Ok tf ->
+  map (fun s => (sg_start s, is_some (sg_styp s))) (f_segs f) = boundaries (o_start_on_moof o) tf bstate0 0 bs.
+Proof. exact boundaries_thm. Qed.
+Print Assumptions C12_boundaries.
+
+(* the four mechanisms, case by case: position `pos` is designated as the start of segment number
+   q_nseg iff (1) there are top-level sidx boxes and the q_nseg-th start offset they list (anchor +
+   sizes of the preceding media references, a type-1 reference ends a sidx) is pos; or (2) there is
+   none, the ISM flag found a tfra, and its entry number q_nseg has moof offset pos; or (3) neither,
+   DecStartOnMoof is set, and the current segment was not started by a styp and has no fragment
+   still waiting for its moof; (4) otherwise never (only the first emsg/moof starts a segment). *)
+Theorem C12_boundary_rules : forall (som : bool) (tf : option (list N)) (q : bstate) (pos : N),
+  designated som tf q pos = true <->
+  (q_sidxs q <> [] /\ nth_error (sidx_starts (q_sidxs q)) (q_nseg q) = Some pos) \/
+  (q_sidxs q = [] /\ exists offs, tf = Some offs /\ nth_error offs (q_nseg q) = Some pos) \/
+  (q_sidxs q = [] /\ tf = None /\ som = true /\ q_styp q = false /\ q_open q = false).
+Proof. exact designated_cases. Qed.
+Print Assumptions C12_boundary_rules.
 
 (* Re-encoding in segment mode, when it succeeds, writes the init boxes, the top-level sidx boxes,
    per segment styp / sidx boxes / the fragments' children, then mfra; the emsg/moof/mdat boxes
@@ -82,6 +107,23 @@ Example C12_example_partition :
   | _ => False
   end.
 Proof. vm_compute. split; reflexivity. Qed.
+
+(* a top-level sidx with two references (314 and 184 bytes) delimits the same file without styp boxes *)
+Definition ex_sidx : topbox :=
+  mkBox KSidx 0 64 8 0 [mkRef 0 290 60; mkRef 0 160 42] false [] false [] [] 1 2 2000 0.
+Definition ex_boxes_sidx : list topbox :=
+  number_from 0 [bx KFtyp 24; ex_moov; ex_sidx; ex_moof 0 [10; 20]; bx KMdat 50; ex_moof 30 [30]; bx KMdat 40;
+                 ex_moof 60 [40; 2]; bx KMdat 60].
+
+Example C12_example_boundaries :
+  boundaries false None bstate0 0 ex_boxes = [(624, true); (938, true)] /\
+  boundaries false None bstate0 0 ex_boxes_sidx = [(688, false); (978, false)] /\
+  boundaries true None bstate0 0 (skipn 3 ex_boxes_sidx) = [(0, false); (150, false); (290, false)] /\
+  match assemble (mkOpts false false) ex_boxes_sidx with
+  | Ok f => map sg_start (f_segs f) = [688; 978]
+  | _ => False
+  end.
+Proof. vm_compute. repeat split; reflexivity. Qed.
 
 Example C12_example_tiles :
   match assemble (mkOpts false false) ex_boxes with
